@@ -242,6 +242,11 @@ func C01(tier string) int {
 		for _, st := range [][2]uint64{{0, 1}, {0, 2}} {
 			ops2 = append(ops2, SOp{Kind: "msign-att-first", Ents: []Ent{{Key: k, S: st[0], T: st[1], Root: 2}, {Key: 1 - k}}},
 				SOp{Kind: "msign-att-last", Ents: []Ent{{Key: k, S: st[0], T: st[1], Root: 2}, {Key: 1 - k}}})
+			if k == 0 && st[1] == 1 {
+				// ... and with the 64 bytes of (data root, domain) cut after byte 36 and after byte 28.
+				ops2 = append(ops2, SOp{Kind: "msign-att-split36", Ents: []Ent{{Key: k, S: st[0], T: st[1], Root: 2}, {Key: 1 - k}}},
+					SOp{Kind: "msign-att-split28", Ents: []Ent{{Key: k, S: st[0], T: st[1], Root: 2}, {Key: 1 - k}}})
+			}
 		}
 	}
 	st2 := newStats()
